@@ -43,7 +43,9 @@ func ReplacePlaceholders(query *updogv1.Query, values []string) *updogv1.Query {
 
 	_ = Walk(q, func(e *updogv1.Query_Expression) bool {
 		if v, ok := e.Value.(*updogv1.Query_Expression_Eq); ok {
-			if v.Eq.Placeholder > 0 {
+			// a placeholder without a value is left in place (callers check the number
+			// of values against the highest placeholder)
+			if v.Eq.Placeholder > 0 && int(v.Eq.Placeholder) <= len(values) {
 				v.Eq.Value = values[v.Eq.Placeholder-1]
 				v.Eq.Placeholder = 0
 			}
